@@ -67,6 +67,17 @@ def Kit.new (nonce : Bytes) : Kit :=
     maxBatchFeeRate := 0, acctKey := List.replicate 33 0, leaseDuration := 0, minUnitsMatch := 0, channelType := 0,
     allowedNodeIDs := [], notAllowedNodeIDs := [], isPublic := false, auctionType := 0 }
 
+/-- the fields `SerializeOrder` keeps (everything else of the kit is stored under the other keys) -/
+def Kit.baseProj (k : Kit) : Kit :=
+  { k with minUnitsMatch := 0, channelType := 0, allowedNodeIDs := [], notAllowedNodeIDs := [],
+           isPublic := false, auctionType := 0 }
+
+/-- **base-field projection** of an order: what `SerializeOrder`/`DeserializeOrder` alone preserve – the
+only part of another trader's order that a batch snapshot keeps -/
+def Order.baseProj : Order → Order
+  | .ask k _ _ => .ask k.baseProj 0 0
+  | .bid k _ _ _ _ _ => .bid k.baseProj 0 0 none false false
+
 /-- working record of (De)SerializeOrder: the kit and the order type byte -/
 structure KitW where
   kit : Kit
